@@ -10,6 +10,8 @@ import z3
 from symx import core
 from symx.env import Patcher
 from symx.run import model_env
+from symx.values import SymArray
+from symx.values import SymReal
 from symx.values import zreal
 
 BOUNDS = {
@@ -220,6 +222,7 @@ def symbolic_run(cfg, rec, after=None):
             for s in stubs.values():
                 s.calls.clear()
                 s.cache.clear()
+                s.phase = 0
             with warnings.catch_warnings():
                 warnings.simplefilter("ignore")
                 scheme = pl.build_scheme(cfg, src)
@@ -232,19 +235,43 @@ def symbolic_run(cfg, rec, after=None):
             yield ctx, src, stubs, kind, out
 
 
-def ordered_calls(stubs):
+def ordered_calls(stubs, phase=0):
     """The recorded solver calls do not carry a global order across the two stub objects: merge by id."""
     calls = []
     for s in stubs.values():
-        calls += s.calls
+        calls += [c for c in s.calls if c.get("phase", 0) == phase]
     return calls
 
 
-def check_objective(cfg, rec, ctx, src, calls, pen, fp_prefix="objective"):
+def evaluate_moved(ctx, scheme, opt, stubs):
+    """Objective at an arbitrary optimiser vector XM (fresh symbols, one per free parameter): returns (labels, pv_override, penalty).
+
+    The linear-solver calls of this evaluation are recorded under phase 1."""
+    labels, x0, lb, ub = opt._parameters.get_label_value_and_bounds_arrays(exclude_non_vary=True)
+    labels = list(labels)
+    if not labels:
+        return None
+    opt._free_parameter_labels = labels
+    X = SymArray((len(labels),))
+    override = {}
+    for k, lab in enumerate(labels):
+        X[k] = SymReal(z3.Real(f"XM_{lab}"))
+        override[lab] = ctx.uf("exp", X[k].e) if scheme.parameters.get(lab).non_negative else X[k].e
+    for s in stubs.values():
+        s.phase = 1
+    try:
+        pen = opt.objective_function(X)
+    finally:
+        for s in stubs.values():
+            s.phase = 0
+    return labels, override, pen
+
+
+def check_objective(cfg, rec, ctx, src, calls, pen, fp_prefix="objective", pv_override=None):
     """Obligations of C02 on one path. Returns (problems, mappings, pv) or None when structure is wrong."""
     from harness import pipeline as pl
 
-    problems, pen_specs, pv = pl.spec_problems(cfg, src)
+    problems, pen_specs, pv = pl.spec_problems(cfg, src, pv_override)
     wit = lambda mm: {"env": model_env(mm)}  # noqa: E731
     if len(calls) != len(problems):
         rec.unexpected(ctx, f"{len(calls)} linear problems solved, specification has {len(problems)}",
@@ -339,15 +366,20 @@ def run_config(cfg, rec):
 
     if pl.has_label_collision(cfg):
         rec.fp_override = "linked:dataset-label-concatenation-collision"
-    for ctx, src, stubs, kind, out in symbolic_run(cfg, rec):
+    for ctx, src, stubs, kind, out in symbolic_run(cfg, rec, after=evaluate_moved):
         rec.witness_path(ctx)
         wit = lambda mm: {"env": model_env(mm)}  # noqa: E731
         if kind == "exc":
             rec.unexpected(ctx, f"objective evaluation raised {type(out).__name__}: {out}", "objective:exception", wit)
             continue
-        scheme, optimizer, pen, _ = out
+        scheme, optimizer, pen, moved = out
         calls = ordered_calls(stubs)
         check_objective(cfg, rec, ctx, src, calls, pen)
+        if moved is not None:
+            # the same obligations at an arbitrary optimiser vector: every parameter the model uses (expressions included)
+            # follows the vector handed to the objective
+            labels_m, override, pen_m = moved
+            check_objective(cfg, rec, ctx, src, ordered_calls(stubs, phase=1), pen_m, fp_prefix="objective:moved", pv_override=override)
         # encoding validation: recorded terms at a pseudo-random point vs the float pipeline
         env = DefaultEnv()
         expected = {"penalty_len": len(np.asarray(pen).flat)}
@@ -402,14 +434,14 @@ def concrete(cfg, env):
     return out
 
 
-def expected_penalty_float(cfg, env):
+def expected_penalty_float(cfg, env, pv_override=None):
     """Independent float oracle: the specification evaluated with numpy + lstsq/nnls."""
     from scipy.optimize import nnls
 
     from harness import pipeline as pl
 
     src = pl.Source(env, getattr(env, "salt", ""))
-    problems, pen_specs, pv = pl.spec_problems(cfg, src)
+    problems, pen_specs, pv = pl.spec_problems(cfg, src, pv_override)
     full_clps, residuals = [], []
     for pb in problems:
         M = np.array([[float(pb["cols"][lab][r]) for lab in pb["labels"]] for r in range(len(pb["rows"]))], dtype=float)
@@ -487,9 +519,45 @@ def _replay_at(cfg, env):
                           f"(entry {worst}: {pen[worst]!r} then {pen2[worst]!r}) - the first evaluation changed its inputs")
     except Exception as ex:  # noqa: BLE001
         return True, f"config {cfg['name']}: second Optimizer on the same scheme raised {type(ex).__name__}: {ex}"
-    bad = [i for i in range(len(pen)) if abs(pen[i] - want[i]) > 1e-7 * max(1.0, abs(want[i]))]
+    bad = [i for i in range(len(pen)) if not abs(pen[i] - want[i]) <= 1e-7 * max(1.0, abs(want[i]))]
     if bad:
         i = bad[0]
         return True, (f"config {cfg['name']}: penalty entry {i} is {pen[i]!r}, documented objective gives {want[i]!r} "
                       f"({len(bad)} of {len(pen)} entries differ)")
-    return False, "float pipeline matches the independent specification"
+    return _replay_moved(cfg, env)
+
+
+def _replay_moved(cfg, env):
+    """The objective at another optimiser vector (as the optimiser evaluates it) against the specification at those values."""
+    import math
+
+    from harness import pipeline as pl
+    from glotaran.optimization.optimizer import Optimizer
+
+    try:
+        with Patcher() as p:
+            src = pl.Source(env, getattr(env, "salt", ""))
+            pl.install(p, src)
+            with warnings.catch_warnings():
+                warnings.simplefilter("ignore")
+                scheme = pl.build_scheme(cfg, src)
+                opt = Optimizer(scheme, verbose=False)
+                labels, x0, lb, ub = opt._parameters.get_label_value_and_bounds_arrays(exclude_non_vary=True)
+                if not list(labels):
+                    return False, "float pipeline matches the independent specification"
+                opt._free_parameter_labels = list(labels)
+                opt.calculate_penalty()
+                x = np.minimum(np.maximum(np.asarray(x0, dtype=float) * 1.07 + 0.03, lb), ub)
+                pen = np.asarray(opt.objective_function(x), dtype=float)
+    except Exception as ex:  # noqa: BLE001
+        return True, f"objective at a second parameter vector raised {type(ex).__name__}: {ex} (config {cfg['name']})"
+    override = {lab: (math.exp(x[k]) if scheme.parameters.get(lab).non_negative else float(x[k])) for k, lab in enumerate(labels)}
+    want = expected_penalty_float(cfg, env, override)
+    if len(pen) != len(want):
+        return True, f"config {cfg['name']}: penalty at a second parameter vector has {len(pen)} entries, documented {len(want)}"
+    bad = [i for i in range(len(pen)) if not abs(pen[i] - want[i]) <= 1e-7 * max(1.0, abs(want[i]))]
+    if bad:
+        i = bad[0]
+        return True, (f"config {cfg['name']}: objective at the optimiser vector {dict(zip(labels, x.tolist()))}: penalty entry {i} is "
+                      f"{pen[i]!r}, the documented objective at those parameter values gives {want[i]!r} ({len(bad)} of {len(pen)} differ)")
+    return False, "float pipeline matches the independent specification (also at a second parameter vector)"
